@@ -97,6 +97,9 @@ def build(spec):
     if p.get('str_default') and cls not in ('QuantitativeDiscretizer', 'ContinuousDiscretizer', 'OrdinalDiscretizer', 'StringDiscretizer'):
         common['str_default'] = p['str_default']
     if cls in ('BinaryCarver', 'ContinuousCarver', 'MulticlassCarver'):
+        if p.get('dup_names'):
+            # the caller's lists name a column twice (two overlapping candidate lists concatenated)
+            quanti, categ = quanti + quanti[:1], categ + categ[-1:]
         kw = dict(quantitative_features=quanti, qualitative_features=categ, ordinal_features=ordinal,
                   values_orders=orders, min_freq=min_freq, max_n_mod=p.get('max_n_mod', 5),
                   dropna=bool(p.get('dropna', True)), output_dtype=p.get('output_dtype', 'float'), **common)
@@ -671,16 +674,22 @@ class Encoder:
             elif ev['ev'] == 'transform':
                 fr = ev['frame_raw']
                 fnames = list(fr.keys())
-                if any(fr[f] is None for f in fnames):
+                lacks = str(ev.get('label', '')).startswith('lacks_')
+                lacking_kept = any(fr[f] is None for f in fnames)
+                if lacks:
+                    # a frame lacking a column given at fit: only "a restored object behaves like its source" is judged
+                    e['ev'] = 'transform_lacking'
+                elif lacking_kept:
                     # a fitted column is missing from the frame: the call is judged as a malformed call elsewhere
                     e['ev'] = 'skip'
                 e['frame'] = [[self.cell(f, v) for v in (fr.get(f) or [])] for f in fnames]
-                e['out'] = ([[self.out(f, v, self._bounds(ev, f)) for v in ev['out_raw'][f]] for f in fnames] if ev.get('out_raw') else [[] for _ in fnames])
+                e['out'] = ([[self.out(f, v, self._bounds(ev, f)) for v in ev['out_raw'][f]] for f in fnames]
+                            if (ev.get('out_raw') and not lacking_kept) else [[] for _ in fnames])
                 e['ranking'] = [self._ranking(f) for f in fnames]
                 seen = ev['seen']
                 e['seen'] = [bool(seen)] * len(fnames) if not isinstance(seen, dict) else [bool(seen.get(f)) for f in fnames]
                 e['same_as'] = ev['same_as']
-                e['same_clause'] = ev['same_clause'] or 'C07_repeat_differs'
+                e['same_clause'] = ev['same_clause'] or ('C06_behaviour' if lacks else 'C07_repeat_differs')
                 e['inputs_unchanged'] = bool(ev['inputs_unchanged'])
                 e['shape_ok'] = bool(ev['shape_ok'])
                 named = ev.get('named_raw') or []
